@@ -8,6 +8,8 @@ import Qvnt.Props.C20
 import Qvnt.Lemmas.GenBits.bitsList_eq
 import Qvnt.Lemmas.GenVirtl.vreg_new_with_mask_eq
 import Qvnt.Lemmas.GenVirtl.quant_get_vreg_by_eq
+import Qvnt.Lemmas.GenVirtl.vreg_index_eq
+import Qvnt.Lemmas.GenVirtl.vreg_index_by_eq
 
 namespace Qvnt
 open Qvnt.Gen2
@@ -30,5 +32,14 @@ theorem C20_code_view {R : Type} (r : QReg R) (mask : Nat) (hm : mask < 2 ^ 64) 
   exact C20_view r mask hm
 
 example : bitsList (2 ^ 63 + 5) = [1, 4, 2 ^ 63] := by rw [C20_code_bits _ (by decide)]; decide
+
+/-- **`VReg` indexing as translated**: `v[i]` on the view of mask `m` is the `i`-th set bit of `m` (0 when out of bounds,
+as the Rust `Index` impl returns), and indexing by a predicate returns exactly the union of the selected entries -/
+theorem C20_code_index (m : Nat) (h : m < 2 ^ 64) (i : Nat) (f : Nat → Bool) (k : Nat) :
+    vreg_index (vregOfModel (VReg.ofMask m)) i = ((bitsOf m)[i]?).getD 0 ∧
+    ((vreg_index_by (vregOfModel (VReg.ofMask m)) f).testBit k = true
+      ↔ ∃ j b, (VReg.ofMask m).bits[j]? = some b ∧ f j = true ∧ b.testBit k = true) := by
+  rw [vreg_index_eq, vreg_index_by_eq, C20_idx m h i]
+  exact ⟨rfl, C20_idxBy _ f k⟩
 
 end Qvnt
